@@ -51,7 +51,7 @@ fn strip_faults(t: &Trace) -> Trace {
             e => events.push(e.clone()),
         }
     }
-    Trace { events, suffix: t.suffix, quarantine: t.quarantine }
+    Trace { events, suffix: t.suffix, quarantine: t.quarantine, recycle: t.recycle }
 }
 
 /// Projection of a trace onto one arena (C20 twin): only events that act on arena `a`, and
@@ -87,7 +87,7 @@ fn project(t: &Trace, a: Aid) -> Trace {
             events.push(e.clone());
         }
     }
-    Trace { events, suffix: t.suffix, quarantine: t.quarantine }
+    Trace { events, suffix: t.suffix, quarantine: t.quarantine, recycle: t.recycle }
 }
 
 impl<'a> Sink<'a> {
@@ -179,7 +179,7 @@ pub fn exec_index(sink: &mut Sink<'_>, idx: u64) {
             }
             // every prefix of it, followed by the suffix
             for j in 1..=events.len() {
-                let t = Trace { events: events[..j].to_vec(), suffix, quarantine: g.quarantine };
+                let t = Trace { events: events[..j].to_vec(), suffix, quarantine: g.quarantine, recycle: g.recycle };
                 let o = run::run_replay(&t, &ecfg);
                 let bad = o.viol.is_some();
                 sink.take(idx, j as u32, rs, o);
@@ -207,7 +207,7 @@ pub fn exec_index(sink: &mut Sink<'_>, idx: u64) {
                 let repeat = if r.chance(1, 3) { 1 + r.below(4) as u32 } else { 1 };
                 let mut ev2 = vec![events[0].clone(), Event::ArmTraceFault { at: k, repeat }];
                 ev2.extend(events[1..].iter().cloned());
-                let t = Trace { events: ev2, suffix, quarantine: g.quarantine };
+                let t = Trace { events: ev2, suffix, quarantine: g.quarantine, recycle: g.recycle };
                 let o = run::run_replay(&t, &ecfg);
                 let bad = o.viol.is_some();
                 sink.take(idx, sub, rs, o);
@@ -230,7 +230,7 @@ pub fn exec_index(sink: &mut Sink<'_>, idx: u64) {
                         Event::Mutate { ops, .. } | Event::NewArena { ops, .. } | Event::Collect { then: MarkedAction::Finalize(ops), .. } => ops.insert(j, Op::Panic),
                         _ => {}
                     }
-                    let t = Trace { events: ev2, suffix, quarantine: g.quarantine };
+                    let t = Trace { events: ev2, suffix, quarantine: g.quarantine, recycle: g.recycle };
                     let o = run::run_replay(&t, &ecfg);
                     let bad = o.viol.is_some();
                     sink.take(idx, sub, rs, o);
@@ -253,7 +253,7 @@ pub fn exec_index(sink: &mut Sink<'_>, idx: u64) {
                 };
                 if changed {
                     sub += 1;
-                    let t = Trace { events: ev2, suffix, quarantine: g.quarantine };
+                    let t = Trace { events: ev2, suffix, quarantine: g.quarantine, recycle: g.recycle };
                     let o = run::run_replay(&t, &ecfg);
                     let bad = o.viol.is_some();
                     sink.take(idx, sub, rs, o);
